@@ -612,7 +612,7 @@ def listing(orig, new, title):
     return '\n'.join(d)
 
 
-def emit_type(srcobj, name, log, derive='Clone, Copy, PartialEq, Eq, Structural', forbid_manual_eq=True, extra_subst=None):
+def emit_type(srcobj, name, log, derive='Clone, Copy, PartialEq, Eq, Structural', forbid_manual_eq=True, extra_subst=None, opaque_payloads=None):
     (s, kw, o, c) = srcobj.find_type(name)
     orig = srcobj.src[s:c + 1]
     text = strip_comments(orig)
@@ -624,6 +624,15 @@ def emit_type(srcobj, name, log, derive='Clone, Copy, PartialEq, Eq, Structural'
             raise LostAnchor('type %s: substitution anchor %r not found' % (name, a))
         text = text.replace(a, b)
         l.append('type subst %r -> %r' % (a, b))
+    if opaque_payloads:
+        # every tuple-variant payload that is not `String` becomes the opaque placeholder type
+        def f(m):
+            inner = m.group(1).strip()
+            if inner == 'String':
+                return m.group(0)
+            l.append('R6 foreign payload type %s -> %s (opaque)' % (inner, opaque_payloads))
+            return '(%s)' % opaque_payloads
+        text = re.sub(r'\(([^()]*)\)', f, text)
     if forbid_manual_eq and derive and 'PartialEq' in derive:
         if re.search(r'impl[^{]*\bPartialEq\b[^{]*\bfor\s+' + re.escape(name) + r'\b', strip_comments(srcobj.src)):
             raise LostAnchor('type %s has a hand-written PartialEq; R6 assumption (derive == structural) does not hold' % name)
